@@ -17,6 +17,11 @@ CLAIMED = {
          "Generated-input search against a model of the expected header fields of every section. Setters, shapes and strings are sampled; nothing is enumerated exhaustively.",
          "*Preformatted setters and header names are out of scope by the property's statement. Values that consist of printable ASCII and contain encoded-word syntax are a recorded known finding (ew-lookalike-verbatim) and are excluded by signature, counted in the evidence.",
          "DESIGN.md section 3, C02"),
+ "C04": ("fault_enumeration",
+         "reply-script fault injection against a strict reference SMTP server (own RFC 5321 parser + transaction automaton): exhaustive <= 1-fault (thorough: also 2-fault) scripts at every step id of the fault-free session per capability subset, plus rapid-generated multi-fault scripts/configurations; oracle: automaton accepts the session, parameter forms, reply-tag attribution",
+         "Every step id of the recorded fault-free dialogue is replaced by each of {4yz, 5yz, drop} for every capability subset (64 in thorough, 8 per seed in quick) x 2 client configurations: complete for <= 1 fault on those configurations; multi-fault scripts and other configurations are sampled by rapid.",
+         "The reference server's strictness (Postfix-like) is the oracle; in-memory transport; pipelining is detected only when two commands arrive in one read. The SASL cancel line after a final AUTH reply is a recorded known finding.",
+         "DESIGN.md section 3, C04"),
  "C11": ("exploration",
          "rapid-generated message programs x generated histories of render operations (WriteTo, Write, NewReader, UpdateReader, WriteToFile, WriteToTempFile, failed renders by sink or producer fault); metamorphic oracle: every successful output is byte-identical to the first",
          "Generated histories against a byte-equality oracle; shapes, file sources/encodings and op sequences are sampled by rapid. Map-order dependent differences need several renders to show, so every history renders at least 4 times.",
